@@ -10,7 +10,8 @@ Recs == ndJsonDeserialize(IOEnv.IN_FILE)
 R(r) == [t |-> r[1], n |-> r[2], v |-> r[3], key |-> r[4], conf |-> r[5]]
 Rep(l) == [i \in 1..Len(l) |-> R(l[i])]
 Q(q) == [recips |-> [i \in 1..Len(q.recips) |-> [id |-> q.recips[i][1], v |-> q.recips[i][2]]], fee |-> q.fee, minconf |-> q.minconf,
-         inkeys |-> {q.inkeys[i] : i \in 1..Len(q.inkeys)}, sweep |-> q.sweep, feemin |-> q.feemin, feemax |-> q.feemax]
+         inkeys |-> {q.inkeys[i] : i \in 1..Len(q.inkeys)}, sweep |-> q.sweep, feemin |-> q.feemin, feemax |-> q.feemax,
+         nexplicit |-> Len(q.explicit), explicit |-> {<<q.explicit[i][1], q.explicit[i][2]>> : i \in 1..Len(q.explicit)}]
 X(x) == [ins |-> [i \in 1..Len(x.ins) |-> [t |-> x.ins[i][1], n |-> x.ins[i][2], v |-> x.ins[i][3]]],
          outs |-> [i \in 1..Len(x.outs) |-> [v |-> x.outs[i][1], key |-> x.outs[i][2], rid |-> x.outs[i][3]]],
          fee |-> x.fee, vsize |-> x.vsize]
@@ -19,18 +20,18 @@ Keys(l) == {[id |-> l[i][1], change |-> l[i][2]] : i \in 1..Len(l)}
 \* state after event e, or the clause that forbids it: [ok, s, why]
 Step(s0, e) ==
   LET s == [s0 EXCEPT !.keys = @ \cup Keys(e.keys)] IN
-  CASE e.op \in {"key", "reopen", "observe"} -> [ok |-> TRUE, s |-> s, why |-> ""]
-    [] e.op = "utxo_add" -> [ok |-> TRUE, s |-> UtxosUpdate(s, Rep(e.rep), FALSE), why |-> ""]
-    [] e.op = "utxos_update" -> [ok |-> TRUE, s |-> UtxosUpdate(s, Rep(e.rep), e.rescan), why |-> ""]
+  CASE e.op \in {"key", "reopen", "observe"} -> [ok |-> TRUE, s |-> s, why |-> "", dev |-> ""]
+    [] e.op = "utxo_add" -> [ok |-> TRUE, s |-> UtxosUpdate(s, Rep(e.rep), FALSE), why |-> "", dev |-> ""]
+    [] e.op = "utxos_update" -> [ok |-> TRUE, s |-> UtxosUpdate(s, Rep(e.rep), e.rescan), why |-> "", dev |-> ""]
     [] e.op = "tx" ->
          LET q == Q(e.q) IN
-         IF ~e.created THEN [ok |-> TRUE, s |-> s, why |-> ""]        \* refusing is always allowed (C07 forbids wrong transactions)
+         IF ~e.created THEN [ok |-> TRUE, s |-> s, why |-> "", dev |-> ""]        \* refusing is always allowed (C07 forbids wrong transactions)
          ELSE LET x == X(e.x)
                   why == IF Insufficient(s, q) THEN "transaction-created-with-insufficient-funds" ELSE TxWhy(s, q, x) IN
-              IF why # "ok" THEN [ok |-> FALSE, s |-> s, why |-> why]
-              ELSE [ok |-> TRUE, s |-> IF e.stored THEN Broadcast(s, x, e.tnum) ELSE s, why |-> ""]
-    [] e.op = "delete" -> [ok |-> TRUE, s |-> Delete(s, e.tnum), why |-> ""]
-    [] OTHER -> [ok |-> FALSE, s |-> s, why |-> "unknown-event"]
+              IF why # "ok" THEN [ok |-> FALSE, s |-> s, why |-> why, dev |-> IF Insufficient(s, q) THEN "" ELSE TxDev(s, q, x)]
+              ELSE [ok |-> TRUE, s |-> IF e.stored THEN Broadcast(s, x, e.tnum) ELSE s, why |-> "", dev |-> ""]
+    [] e.op = "delete" -> [ok |-> TRUE, s |-> Delete(s, e.tnum), why |-> "", dev |-> ""]
+    [] OTHER -> [ok |-> FALSE, s |-> s, why |-> "unknown-event", dev |-> ""]
 
 UtxoSet(l) == {<<l[i][1], l[i][2], l[i][3]>> : i \in 1..Len(l)}
 ObsWhy(s, o) ==
@@ -49,18 +50,18 @@ Run(s, evs, i, devs, bals, issues) ==
     ELSE LET st == Step(s, evs[i])
              s1 == IF st.ok THEN st.s
                    ELSE IF evs[i].op = "tx" /\ evs[i].stored THEN Broadcast(st.s, X(evs[i].x), evs[i].tnum) ELSE st.s
-             iss1 == IF st.ok THEN issues ELSE Append(issues, [at |-> i, kind |-> "rejected", why |-> st.why, exp |-> 0])
+             iss1 == IF st.ok THEN issues ELSE Append(issues, [at |-> i, kind |-> "rejected", why |-> st.why, exp |-> 0, dev |-> st.dev])
              live == ObsWhy(s1, evs[i].live)
              fresh == ObsWhy(s1, evs[i].fresh)
              nb == bals \cup {Balance(s1)} IN
-         IF fresh # "ok" THEN Run(s1, evs, i + 1, devs, nb, Append(iss1, [at |-> i, kind |-> "observation", why |-> "reopened-wallet: " \o fresh, exp |-> Balance(s1)]))
+         IF fresh # "ok" THEN Run(s1, evs, i + 1, devs, nb, Append(iss1, [at |-> i, kind |-> "observation", why |-> "reopened-wallet: " \o fresh, exp |-> Balance(s1), dev |-> ""]))
          ELSE IF live = "ok" THEN Run(s1, evs, i + 1, devs, nb, iss1)
          \* named deviations: the live object serves a value that was right in an earlier state of this history
          ELSE IF live = "balance-is-not-the-sum-of-unspent-outputs" /\ evs[i].live.balance \in bals
               THEN Run(s1, evs, i + 1, devs \cup {"live-balance-cache-stale"}, nb, iss1)
          ELSE IF live = "key-balance-differs"
               THEN Run(s1, evs, i + 1, devs \cup {"live-keys-balance-stale"}, nb, iss1)
-         ELSE Run(s1, evs, i + 1, devs, nb, Append(iss1, [at |-> i, kind |-> "observation", why |-> "live-wallet: " \o live, exp |-> Balance(s1)]))
+         ELSE Run(s1, evs, i + 1, devs, nb, Append(iss1, [at |-> i, kind |-> "observation", why |-> "live-wallet: " \o live, exp |-> Balance(s1), dev |-> ""]))
 
 SetToSeq(S) == CHOOSE f \in [1..Cardinality(S) -> S] : \A i, j \in 1..Cardinality(S) : i # j => f[i] # f[j]
 Out == [k \in 1..Len(Recs) |-> LET r == Run(InitS, Recs[k].events, 1, {}, {0}, <<>>) IN
